@@ -66,6 +66,7 @@ const (
 	c41KDeliver
 	c41KAntiEntropy
 	c41KPrune
+	c41KExchange // anti-entropy tick + immediate delivery of the digest (+ of the reply unless Keep)
 )
 
 const (
@@ -114,16 +115,18 @@ func c41Gen(t *rapid.T) c41Case {
 		var s c41Step
 		w := rapid.IntRange(0, 99).Draw(t, "kind")
 		switch {
-		case w < 24:
+		case w < 22:
 			s.Kind = c41KUpdate
-		case w < 34:
+		case w < 33:
 			s.Kind = c41KDelete
-		case w < 42:
+		case w < 40:
 			s.Kind = c41KGet
-		case w < 84:
+		case w < 78:
 			s.Kind = c41KDeliver
-		case w < 96:
+		case w < 84:
 			s.Kind = c41KAntiEntropy
+		case w < 96:
+			s.Kind = c41KExchange
 		default:
 			s.Kind = c41KPrune
 		}
@@ -148,6 +151,10 @@ func c41Gen(t *rapid.T) c41Case {
 			s.Keep = rapid.IntRange(0, 3).Draw(t, "keep") == 0
 		case c41KAntiEntropy:
 			s.Peers = rapid.IntRange(0, c.N-2).Draw(t, "peer") // index into the other replicas
+		case c41KExchange:
+			s.Peers = rapid.IntRange(0, c.N-2).Draw(t, "peer")
+			s.Mode = rapid.IntRange(0, 2).Draw(t, "xmode") // 0: as drawn; else: prefer a tombstoned initiator whose peer holds the key
+			s.Keep = rapid.IntRange(0, 3).Draw(t, "xkeep") == 0 // leave the reply pooled
 		}
 		c.Steps = append(c.Steps, s)
 	}
@@ -780,9 +787,15 @@ func (r *c41Run) doDeliver(s c41Step) {
 	} else {
 		x.Class("deliver_and_keep_for_redelivery")
 	}
+	r.deliver(p, s.Keep)
+}
+
+// deliver hands one pooled message to its target replica and judges the outcome.
+func (r *c41Run) deliver(p c41Pair, keep bool) []*c41Msg {
+	x := r.x
 	m, t := p.m, p.target
 	cause := c41MsgNames[m.kind]
-	x.Logf("step %d: deliver #%d %s origin=r%d keys=%v (created at step %d) to r%d keep=%v", r.step, m.id, cause, m.origin, m.keys, m.step, t, s.Keep)
+	x.Logf("step %d: deliver #%d %s origin=r%d keys=%v (created at step %d) to r%d keep=%v", r.step, m.id, cause, m.origin, m.keys, m.step, t, keep)
 	x.Class("deliver_" + strings.ReplaceAll(cause, "-", "_"))
 	switch m.kind {
 	case c41MDelta, c41MDirectDelta:
@@ -820,44 +833,117 @@ func (r *c41Run) doDeliver(s c41Step) {
 	if m.kind == c41MDigest {
 		replyTo = m.origin
 	}
-	r.collect(replyTo)
+	out := r.collect(replyTo)
 	if m.kind == c41MTomb || m.kind == c41MDirectTomb {
 		if k := m.keys[0]; k >= 0 {
 			r.tomb[t][k] = true
 		}
 	}
 	r.verify(cause)
+	return out
+}
+
+// take removes the pool entry of message m (first match) and returns it.
+func (r *c41Run) take(m *c41Msg) (c41Pair, bool) {
+	for i, p := range r.pool {
+		if p.m == m {
+			r.pool = append(r.pool[:i:i], r.pool[i+1:]...)
+			return p, true
+		}
+	}
+	return c41Pair{}, false
+}
+
+// doExchange is a whole anti-entropy round without anything in between: tick at the
+// initiator, the digest reaches the peer at once, and (unless Keep) so does the reply.
+func (r *c41Run) doExchange(s c41Step) {
+	x := r.x
+	init := s.R
+	var peer int
+	pick := func(i int) int {
+		var others []int
+		for p := 0; p < r.net.n; p++ {
+			if p != i {
+				others = append(others, p)
+			}
+		}
+		return others[s.Peers%len(others)]
+	}
+	peer = pick(init)
+	if s.Mode != 0 {
+		// prefer an initiator that has a tombstone for a key its peer still holds
+	search:
+		for d := 0; d < r.net.n; d++ {
+			i := (s.R + d) % r.net.n
+			for p := 0; p < r.net.n; p++ {
+				if p == i {
+					continue
+				}
+				for k := range r.keys {
+					if _, has := r.net.acts[p].store[r.keys[k].ID()]; has && r.tomb[i][k] {
+						init, peer = i, p
+						break search
+					}
+				}
+			}
+		}
+	}
+	x.Class("anti_entropy_exchange")
+	msgs := r.antiEntropy(init, peer)
+	for _, m := range msgs {
+		if m.kind != c41MDigest {
+			continue
+		}
+		p, ok := r.take(m)
+		if !ok {
+			continue
+		}
+		replies := r.deliver(p, false)
+		if s.Keep {
+			continue
+		}
+		for _, rm := range replies {
+			if rp, ok := r.take(rm); ok {
+				r.deliver(rp, false)
+			}
+		}
+	}
 }
 
 func (r *c41Run) doAntiEntropy(s c41Step) {
-	x := r.x
 	var others []int
 	for p := 0; p < r.net.n; p++ {
 		if p != s.R {
 			others = append(others, p)
 		}
 	}
-	peer := others[s.Peers%len(others)]
-	r.setView(s.R, 1<<peer)
-	x.Logf("step %d: anti-entropy tick at r%d, peer r%d", r.step, s.R, peer)
-	x.Class("anti_entropy_round")
-	if err := c41Capture.Tell(context.Background(), r.net.pids[s.R], &antiEntropyTick{}); err != nil {
+	r.x.Class("anti_entropy_tick_only")
+	r.antiEntropy(s.R, others[s.Peers%len(others)])
+}
+
+// antiEntropy makes replica i run one anti-entropy tick with peer as its only listed peer.
+func (r *c41Run) antiEntropy(i, peer int) []*c41Msg {
+	x := r.x
+	r.setView(i, 1<<peer)
+	x.Logf("step %d: anti-entropy tick at r%d, peer r%d", r.step, i, peer)
+	if err := c41Capture.Tell(context.Background(), r.net.pids[i], &antiEntropyTick{}); err != nil {
 		r.alive("anti-entropy")
 		r.inconclusive("tell_error")
 	}
-	r.settle(s.R)
+	r.settle(i)
 	msgs := r.collect(-1)
 	for _, m := range msgs {
 		if m.kind == c41MDigest {
 			for _, k := range m.keys {
-				if k >= 0 && r.tomb[s.R][k] {
+				if k >= 0 && r.tomb[i][k] {
 					x.Failf("digest-lists-tombstoned-key", "step %d: replica r%d has a tombstone for %s, yet its digest lists the key",
-						r.step, s.R, r.keys[k].ID())
+						r.step, i, r.keys[k].ID())
 				}
 			}
 		}
 	}
 	r.verify("anti-entropy-tick")
+	return msgs
 }
 
 func (r *c41Run) doPrune(s c41Step) {
@@ -929,6 +1015,8 @@ func c41Exec(x *vfkit.X, c c41Case) {
 			r.doAntiEntropy(s)
 		case c41KPrune:
 			r.doPrune(s)
+		case c41KExchange:
+			r.doExchange(s)
 		}
 	}
 	// the tombstones themselves must still be there (TTL = 1 h): a replica that lost one
@@ -950,7 +1038,7 @@ func TestVF_C41_tombstone(t *testing.T) {
 	c41Start(t)
 	vfkit.Run(t, vfkit.Spec[c41Case]{
 		ID: "C41", Unit: "tombstone",
-		Rule: "cases = plans of 3..30 steps over 2-3 real replicator actors and 1-2 keys (6 CRDT types): Update / Delete / Get (local, Majority or All with a generated peer view), delivery of a captured message (topic delta or tombstone to any replica, coordinated-write delta, coordinated-delete tombstone, digest, full-state reply; any order, kept for re-delivery or consumed, never delivered = dropped), anti-entropy tick towards a chosen peer, prune tick; tombstone TTL 1h; " +
+		Rule: "cases = plans of 3..30 steps over 2-3 real replicator actors and 1-2 keys (6 CRDT types): Update / Delete / Get (local, Majority or All with a generated peer view), delivery of a captured message (topic delta or tombstone to any replica, coordinated-write delta, coordinated-delete tombstone, digest, full-state reply; any order, kept for re-delivery or consumed, never delivered = dropped), anti-entropy tick towards a chosen peer (alone, or as a whole round with the digest and optionally the full-state reply delivered at once), prune tick; tombstone TTL 1h; " +
 			"non-trivial = a delta or a full-state entry for key k, originated by another replica, is delivered to a replica that has already processed a tombstone for k (or, while the coordinated-read finding is not listed, a coordinated Get is made there while a peer still holds k); distinct = distinct plans",
 		Gen: c41Gen, Exec: c41Exec,
 		ReplayReps: 3,
